@@ -8,6 +8,9 @@ import Wharf.Gen.Kernels
 import Wharf.Model.Rsync
 import Wharf.Model.Patch
 import Wharf.Model.Overlay
+import Wharf.Model.Sign
+import Wharf.Model.Bsdiff
+import Wharf.Model.Lru
 
 namespace Wharf.GenTies
 open Wharf
@@ -74,5 +77,182 @@ theorem proto_fields :
 theorem overlay_consts :
     Gen.overlay_overlayBufSize = 131072 ∧ Gen.overlay_overlaySameThreshold = 8192 ∧ 0 < Gen.overlay_overlayBufSize := by
   decide
+
+set_option linter.unusedSimpArgs false
+
+/-! ## Slices: straight-line arithmetic inside larger functions, regenerated from the source
+
+  `wvextract` cuts these statement runs out of `ApplySingleFull`, `ReadSignature`, `DiffContext.Do`, `lruFile.Read` and
+  `safeKeeper.validateBlock` on every run (Gen/Kernels.lean); the theorems below identify each with the expression the
+  hand-written model uses at that place, for all arguments. -/
+
+
+private theorem tmod_nat (a b : Nat) : Int.tmod (a : Int) (b : Int) = ((a % b : Nat) : Int) := by
+  rw [Int.tmod_eq_emod_of_nonneg (by omega)]; exact (Int.natCast_emod a b).symm
+
+private theorem tdiv_nat (a b : Nat) : Int.tdiv (a : Int) (b : Int) = ((a / b : Nat) : Int) := by
+  rw [Int.tdiv_eq_ediv_of_nonneg (by omega)]; exact (Int.natCast_ediv a b).symm
+
+/-- `ApplySingleFull`'s byte count of a block range is the model's `(span-1)*bs + blockLen …` (`Rsync.opBytes`,
+    `Rsync.reusedOf`), for every block size, file size, index and span ≥ 1. -/
+theorem gen_applyRangeSize (bs size i sp : Nat) (hsp : 1 ≤ sp) :
+    Gen.applyRangeSize (bs : Int) (size : Int) (i : Int) (sp : Int)
+      = (((sp - 1) * bs + Rsync.blockLen bs size (i + sp - 1) : Nat) : Int) := by
+  obtain ⟨k, rfl⟩ : ∃ k, sp = k + 1 := ⟨sp - 1, by omega⟩
+  unfold Gen.applyRangeSize Rsync.blockLen
+  simp only [Nat.add_sub_cancel]
+  have e1 : ((i : Int) + (((k + 1 : Nat) : Int) - (1 : Int)) + (1 : Int)) = ((i + (k + 1) - 1 + 1 : Nat) : Int) := by omega
+  have e2 : (((k + 1 : Nat) : Int) - (1 : Int)) = (k : Int) := by omega
+  rw [e1, e2, tmod_nat]
+  by_cases h : bs * (i + (k + 1) - 1 + 1) > size
+  · have h' : (bs : Int) * ((i + (k + 1) - 1 + 1 : Nat) : Int) > (size : Int) := by exact_mod_cast h
+    simp only [if_pos h', if_pos h]; push_cast; rfl
+  · have h' : ¬ (bs : Int) * ((i + (k + 1) - 1 + 1 : Nat) : Int) > (size : Int) := by exact_mod_cast h
+    simp only [if_neg h', if_neg h]; push_cast; rfl
+
+/-- `ReadSignature`'s re-derived ShortSize is the model's `Sign.rederivedShort` at the real block size. -/
+theorem gen_sigShortSize (size i : Nat) :
+    Gen.sigShortSize (i : Int) (size : Int) = ((Sign.rederivedShort Gen.pwr_BlockSize size i : Nat) : Int) := by
+  unfold Gen.sigShortSize Sign.rederivedShort Gen.pwr_BlockSize
+  have e : (((i : Int) + (1 : Int)) * (65536 : Int)) = (((i + 1) * 65536 : Nat) : Int) := by omega
+  have e65 : (65536 : Int) = ((65536 : Nat) : Int) := rfl
+  rw [e]
+  by_cases h : (i + 1) * 65536 > size
+  · have h' : (((i + 1) * 65536 : Nat) : Int) > (size : Int) := by exact_mod_cast h
+    simp only [if_pos h', if_pos h]; rw [e65, tmod_nat]
+  · have h' : ¬ (((i + 1) * 65536 : Nat) : Int) > (size : Int) := by exact_mod_cast h
+    simp only [if_neg h', if_neg h]; rfl
+
+/-- `safeKeeper.validateBlock`: the block an offset falls into, and where it starts. -/
+theorem gen_skBlock (off : Nat) :
+    Gen.skBlockIndex (off : Int) = ((off / Gen.pwr_BlockSize : Nat) : Int) ∧
+    Gen.skBlockOffset ((off / Gen.pwr_BlockSize : Nat) : Int) = ((off / Gen.pwr_BlockSize * Gen.pwr_BlockSize : Nat) : Int) := by
+  unfold Gen.skBlockIndex Gen.skBlockOffset Gen.pwr_BlockSize
+  constructor
+  · exact tdiv_nat off 65536
+  · omega
+
+
+
+
+/-- the lets of the generated `scanPlan` spelled out -/
+theorem scanPlan_explicit (n p : Int) : Gen.scanPlan n p =
+  (if Int.tdiv (n + 131072 - 1) 131072 < p then
+     ((if Int.tdiv n p < 1 then 1 else Int.tdiv n p),
+      Int.tdiv (n + (if Int.tdiv n p < 1 then 1 else Int.tdiv n p) - 1) (if Int.tdiv n p < 1 then 1 else Int.tdiv n p))
+   else (131072, Int.tdiv (n + 131072 - 1) 131072)) := by
+  simp only [Gen.scanPlan]
+  have e0 : ((128 : Int) * (1024 : Int)) = 131072 := by rfl
+  rw [e0]
+
+/-- How `DiffContext.Do` cuts the new file into scan blocks is the model's `blockPlan` (at the real scan block
+    size, for every partition count, old and new length). -/
+theorem gen_scanPlan (parts ob n : Nat) :
+    Gen.scanPlan (n : Int) (((Bsdiff.blockPlan Gen.bsdiff_scanBlockSize parts ob n).1 : Nat) : Int)
+      = ((((Bsdiff.blockPlan Gen.bsdiff_scanBlockSize parts ob n).2.1 : Nat) : Int),
+         (((Bsdiff.blockPlan Gen.bsdiff_scanBlockSize parts ob n).2.2 : Nat) : Int)) := by
+  rw [scanPlan_explicit]
+  unfold Bsdiff.blockPlan Gen.bsdiff_scanBlockSize
+  generalize hp : (if parts = 0 ∨ parts + 1 ≥ ob then 1 else parts) = p
+  have hp1 : 1 ≤ p := by subst hp; split <;> omega
+  simp only []
+  have e1 : ((n : Int) + 131072) - 1 = ((n + 131072 - 1 : Nat) : Int) := by omega
+  have e65 : (131072 : Int) = ((131072 : Nat) : Int) := rfl
+  by_cases h : (n + 131072 - 1) / 131072 < p
+  · simp only [if_pos h]
+    rw [e1, e65, tdiv_nat, tdiv_nat]
+    have h' : (((n + 131072 - 1) / 131072 : Nat) : Int) < (p : Int) := by omega
+    simp only [if_pos h']
+    by_cases h2 : n / p < 1
+    · have h2' : ((n / p : Nat) : Int) < (1 : Int) := by omega
+      simp only [if_pos h2, if_pos h2']
+      have e2 : ((n : Int) + 1) - 1 = ((n + 1 - 1 : Nat) : Int) := by omega
+      have e3 : (1 : Int) = ((1 : Nat) : Int) := rfl
+      rw [e2]; rw [e3, tdiv_nat]
+    · have h2' : ¬ ((n / p : Nat) : Int) < (1 : Int) := by omega
+      simp only [if_neg h2, if_neg h2']
+      have e2 : ((n : Int) + ((n / p : Nat) : Int)) - 1 = ((n + n / p - 1 : Nat) : Int) := by omega
+      rw [e2, tdiv_nat]
+  · simp only [if_neg h]
+    rw [e1, e65, tdiv_nat]
+    have h' : ¬ (((n + 131072 - 1) / 131072 : Nat) : Int) < (p : Int) := by omega
+    simp only [if_neg h']
+
+
+
+
+
+/-- The scan worker's block `k` of `nb` starts at `bs*k` and is `bs` long, except the last, which takes what is
+    left — `Bsdiff.allMatches` (`len := if nb = 0 then nbuf.size - boundary else blockSize`, counting down). -/
+theorem gen_scanBlockExtent (bs nb n k : Nat) (hk : k < nb) (hle : bs * k ≤ n) :
+    Gen.scanBlockExtent (bs : Int) (nb : Int) (n : Int) (k : Int)
+      = (((bs * k : Nat) : Int), (((if nb - 1 - k = 0 then n - bs * k else bs) : Nat) : Int)) := by
+  simp only [Gen.scanBlockExtent]
+  by_cases h : nb - 1 - k = 0
+  · have h' : (k : Int) = (nb : Int) - 1 := by omega
+    simp only [if_pos h, if_pos h']
+    refine Prod.ext ?_ ?_
+    · simp only [Int.natCast_mul]
+    · simp only []
+      rw [← Int.natCast_mul]; omega
+  · have h' : ¬ (k : Int) = (nb : Int) - 1 := by omega
+    simp only [if_neg h, if_neg h', Int.natCast_mul]
+
+/-- One turn of `lruFile.Read`'s loop in the model's terms (the `let`s of `Lru.read`). -/
+def lruTurnNat (off cs size remaining : Nat) : Nat × Nat × Nat × Bool :=
+  let chunkIndex := off / cs
+  let start := off % cs
+  let chunkStart := chunkIndex * cs
+  let lastChunk := chunkStart + cs > size
+  let chunkEnd := if lastChunk then size else chunkStart + cs
+  let csz := chunkEnd - chunkStart
+  let endWanted := start + remaining
+  (chunkIndex, start, if endWanted > csz then csz else endWanted, decide (endWanted > csz ∧ lastChunk))
+
+theorem gen_lruTurn (off cs size remaining : Nat) (hoff : off ≤ size) :
+    Gen.lruTurn (off : Int) (cs : Int) (size : Int) (remaining : Int) false
+      = ((((lruTurnNat off cs size remaining).1 : Nat) : Int), (((lruTurnNat off cs size remaining).2.1 : Nat) : Int),
+         (((lruTurnNat off cs size remaining).2.2.1 : Nat) : Int), (lruTurnNat off cs size remaining).2.2.2) := by
+  simp only [Gen.lruTurn, lruTurnNat, tdiv_nat, tmod_nat]
+  have hcs : off / cs * cs ≤ off := Nat.div_mul_le_self off cs
+  have e1 : ((off / cs : Nat) : Int) * (cs : Int) = ((off / cs * cs : Nat) : Int) := by simp only [Int.natCast_mul]
+  rw [e1]
+  generalize off / cs * cs = a at *
+  generalize off % cs = s at *
+  by_cases h1 : a + cs > size
+  · have h1' : (a : Int) + (cs : Int) > (size : Int) := by omega
+    by_cases h2 : s + remaining > size - a
+    · have h2' : (s : Int) + (remaining : Int) > (size : Int) - (a : Int) := by omega
+      simp only [if_pos h1', if_pos h1, if_pos h2', if_pos h2, h1, h2, and_self, decide_true, if_true, if_false, and_true]
+      refine Prod.ext rfl (Prod.ext rfl (Prod.ext ?_ rfl)); simp only []; omega
+    · have h2' : ¬ (s : Int) + (remaining : Int) > (size : Int) - (a : Int) := by omega
+      simp only [if_pos h1', if_pos h1, if_neg h2', if_neg h2, h1, h2, false_and, decide_false, if_true, if_false, and_true]
+      refine Prod.ext rfl (Prod.ext rfl (Prod.ext ?_ rfl)); simp only []; omega
+  · have h1' : ¬ (a : Int) + (cs : Int) > (size : Int) := by omega
+    by_cases h2 : s + remaining > a + cs - a
+    · have h2' : (s : Int) + (remaining : Int) > (a : Int) + (cs : Int) - (a : Int) := by omega
+      simp only [if_neg h1', if_neg h1, if_pos h2', if_pos h2, h1, and_false, decide_false, if_true, if_false]
+      refine Prod.ext rfl (Prod.ext rfl (Prod.ext ?_ ?_))
+      · simp only []; omega
+      · simp
+    · have h2' : ¬ (s : Int) + (remaining : Int) > (a : Int) + (cs : Int) - (a : Int) := by omega
+      simp only [if_neg h1', if_neg h1, if_neg h2', if_neg h2, h1, and_false, decide_false, if_true, if_false]
+      refine Prod.ext rfl (Prod.ext rfl (Prod.ext ?_ rfl)); simp only []; omega
+
+
+section
+open Wharf.Lru
+/-- `Lru.read` takes its turn exactly as `lruTurnNat` says (so `gen_lruTurn` ties the arithmetic of the real loop
+    body to the arithmetic of the model's). -/
+theorem lru_read_turn (lf : LruFile) (fuel rem : Nat) (acc : List Byte) (h : rem ≠ 0) (lf' : LruFile)
+    (chunk : List Byte) (hg : getChunk lf (lf.offset.toNat / lf.chunkSize) = .ok (lf', chunk))
+    (hcs : lf'.chunkSize = lf.chunkSize) :
+    read lf (fuel + 1) rem acc =
+      (let t := lruTurnNat lf.offset.toNat lf.chunkSize lf'.file.length rem
+       let piece := (chunk.drop t.2.1).take (t.2.2.1 - t.2.1)
+       let lf2 := { lf' with offset := lf'.offset + piece.length }
+       if t.2.2.2 then .ok (lf2, acc ++ piece, true) else read lf2 fuel (rem - piece.length) (acc ++ piece)) := by
+  simp only [Wharf.Lru.read, h, if_false, hg, hcs, lruTurnNat, decide_eq_true_eq]
+end
 
 end Wharf.GenTies
